@@ -178,6 +178,7 @@ def configs(tier, seed):
         if not quick:
             out.append({'variant': 'cone0', 'model': model, 'mn': (2, 2, 2), 's': 2, 'group': '(i) cone(0)=cylinder:%s' % model, 'm': 2, 'n': 2, 'timeout_ms': 600000})
             out.append({'variant': 'mirror', 'model': model, 'mn': (2, 1, 2), 's': 2, 'group': '(iv) lower=mirror:%s' % model, 'm': 2, 'n': 2, 'timeout_ms': 600000})
+            out.append({'variant': 'cone0', 'model': model, 'mn': (3, 2, 3), 's': 1, 'group': '(i) cone(0)=cylinder:%s' % model, 'm': 3, 'n': 3, 'timeout_ms': 900000})
     for model in (['clpt_donnell_bc1', 'fsdt_donnell_bc1', 'clpt_sanders_bc2'] if quick else names):
         out.append({'variant': 'split', 'model': model, 'mn': (1, 1, 1), 's': 1, 'cone': True, 'group': '(ii) kG0 split/homogeneous:%s' % model, 'm': 1, 'n': 1, 'timeout_ms': 180000})
         out.append({'variant': 'split', 'model': model, 'mn': (1, 1, 1), 's': 1, 'cone': False, 'group': '(ii) kG0 split/homogeneous (cylinder):%s' % model, 'm': 1, 'n': 1, 'timeout_ms': 180000})
